@@ -4,7 +4,7 @@ import OjgVerif.JPath.FilterSpec
 /-! Driver ops of the JSONPath family (C05, C11).
 
 Request: `<op> <rep> <flags> <path> <data>` (tab separated)
-* op: `spec` (the denotation), `get` (the Get machine), `gets` (Get through the skeleton, with
+* op: `specrfc` (the documented denotation: RFC 9535 slices), `spec` (the denotation in the code's reading of slices), `get` (the Get machine), `gets` (Get through the skeleton, with
   locations), `first`, `has`, `locate`, `walk`, `nodes`, `firstnode`
 * rep: `<array kind>.<object kind>`, e.g. `any.map`, `gen.gen`, `indexed.keyed`, `rslice.struct`
 * flags: the deviation flags that are on, one letter each (`-` = none):
@@ -296,6 +296,7 @@ def renderOpt : Option JV → String
 
 def answer (op : String) (cfg : Cfg) (rep : Rep) (x : List Frag) (d : JV) : String :=
   if op = "spec" then renderLocated (eval x d)
+  else if op = "specrfc" then renderLocated (evalRfc x d)
   else if op = "get" then renderVals (getM cfg rep x d)
   else if op = "gets" then renderLocated (getS cfg rep x d)
   else if op = "first" then renderOpt (firstM cfg rep x d)
